@@ -1,12 +1,15 @@
 #!/bin/bash
 # merge_hard.sh <Cnn>: take a hardened property's rule files (and the extra benign patches) from the
-# worker's private copy /tmp/vf/<Cnn> into /verif, after checking that nothing else was changed there.
+# worker's private copy /tmp/vf/<Cnn> into /verif, after checking against the commit the copy was made
+# from (/tmp/vf/<Cnn>/.base) that nothing but the property's own rule files was changed there.
 set -u
 p=$1; lc=$(echo $p | tr A-Z a-z); src=/tmp/vf/$p
 [ -d $src ] || { echo "no $src"; exit 2; }
-echo "== files that differ from /verif (excluding bin, evidence):"
-diff -rq --exclude=bin --exclude=evidence --exclude=.git $src /verif | grep -v "Only in /verif" | sed 's/^/   /'
-other=$(diff -rq --exclude=bin --exclude=evidence --exclude=.git $src/cmd /verif/cmd | grep -v "Only in /verif" | grep -v "/$lc[^/]*\.go" )
+base=$(cat $src/.base); ref=/tmp/vf/.base-$base
+[ -d $ref ] || { mkdir -p $ref && git -C /verif archive $base | tar -x -C $ref; }
+echo "== changed relative to base $base:"
+diff -rq --exclude=bin --exclude=evidence --exclude=.git --exclude=.base $ref $src | sed 's/^/   /'
+other=$(diff -rq --exclude=bin --exclude=evidence --exclude=.git $ref/cmd $src/cmd | grep -v "/$lc[^/]*\.go" )
 if [ -n "$other" ]; then echo "!! changes outside $lc*.go:"; echo "$other"; [ "${FORCE:-0}" = 1 ] || exit 1; fi
 cp $src/cmd/verifcheck/$lc*.go /verif/cmd/verifcheck/
 for f in $src/benign2/${p}R[0-9]*.patch $src/benign2/${p}R[0-9]*.notes.md; do [ -f "$f" ] && cp $f /verif/benign2/; done
